@@ -698,3 +698,388 @@ Proof.
   pose proof (annotate_keys meta mol new E) as KN.
   pose proof (fg_fold_replace new [] fgs0) as R. cbn [app map] in R. rewrite R; [reflexivity|congruence|now rewrite KN].
 Qed.
+
+(** ================================================================== set_atom_names_atomistic (with a coarse graph) *)
+(** ---- element ++ str(index) determines a non-negative index *)
+Lemma st_digit_val_char d : (d < 10)%nat -> digit_val (digit_char d) = d.
+Proof. intros H. do 10 (destruct d as [|d]; [reflexivity|]). lia. Qed.
+Lemma st_nat_digits_val fuel : forall n acc, (n < fuel)%nat -> digits_val 0 (nat_digits fuel n acc) = digits_val (Z.of_nat n) acc.
+Proof.
+  induction fuel as [|f IH]; intros n acc H; [lia|]. cbn [nat_digits].
+  assert ((n mod 10 < 10)%nat) as Hm by (apply Nat.mod_upper_bound; lia).
+  destruct (Nat.ltb_spec n 10) as [Hl|Hl].
+  - cbn [digits_val]. rewrite st_digit_val_char by exact Hm. rewrite Nat.mod_small by exact Hl. f_equal; lia.
+  - assert ((n / 10 < f)%nat) as Hd by (assert (n / 10 < n)%nat by (apply Nat.div_lt; lia); lia).
+    rewrite (IH (n / 10)%nat _ Hd). cbn [digits_val]. rewrite st_digit_val_char by exact Hm. f_equal.
+    pose proof (Nat.div_mod n 10 ltac:(lia)). try lia.
+Qed.
+Lemma st_str_of_nat_val n : digits_val 0 (str_of_nat n) = Z.of_nat n.
+Proof. unfold str_of_nat. rewrite st_nat_digits_val by lia. reflexivity. Qed.
+Lemma label_inj_nonneg e i j : 0 <= i -> 0 <= j -> atom_label e i = atom_label e j -> i = j.
+Proof.
+  unfold atom_label. intros Hi Hj H. apply app_inv_head in H.
+  assert (S1 : forall z, 0 <= z -> str_of_Z z = str_of_nat (Z.to_nat z)) by (intros z Hz; destruct z; [reflexivity|reflexivity|lia]).
+  rewrite (S1 i Hi), (S1 j Hj) in H. apply (f_equal (digits_val 0)) in H. rewrite !st_str_of_nat_val in H. lia.
+Qed.
+
+(** ---- the fuel of the name search never runs out (pigeonhole), so any larger fuel gives the same index *)
+Lemma bump_mono used e : forall f idx i k, bump_idx f used e idx = Ok i -> bump_idx (f + k) used e idx = Ok i.
+Proof.
+  induction f as [|f IH]; intros idx i k H; cbn in H; [discriminate|]. cbn [Nat.add bump_idx].
+  destruct (name_taken used (atom_label e idx)); [now apply IH|exact H].
+Qed.
+Lemma bump_err used e : forall f idx x, bump_idx f used e idx = Err x ->
+  forall j, (j < f)%nat -> name_taken used (atom_label e (idx + Z.of_nat j)) = true.
+Proof.
+  induction f as [|f IH]; intros idx x H j Hj; [lia|]. cbn in H.
+  destruct (name_taken used (atom_label e idx)) eqn:T; [|discriminate].
+  destruct j as [|j]; [now rewrite Z.add_0_r|].
+  replace (idx + Z.of_nat (Datatypes.S j)) with (idx + 1 + Z.of_nat j) by lia. apply (IH _ _ H). lia.
+Qed.
+Lemma name_taken_in used nm : name_taken used nm = true -> In (VStr nm) used.
+Proof.
+  unfold name_taken. intros H. apply existsb_exists in H as [x [Hx E]]. apply simple_eqb in E; [now subst|exact I].
+Qed.
+Lemma bump_total used e idx f : 0 <= idx -> (length used < f)%nat -> exists i, bump_idx f used e idx = Ok i.
+Proof.
+  intros Hi Hf. destruct (bump_idx f used e idx) as [i|x] eqn:E; [now exists i|]. exfalso.
+  pose proof (bump_err used e f idx x E) as T.
+  set (L := map (fun j => VStr (atom_label e (idx + Z.of_nat j))) (seq 0 f)).
+  assert (ND : NoDup L).
+  { subst L. apply FinFun.Injective_map_NoDup; [|apply seq_NoDup].
+    intros a b H. inversion H as [H1]. apply label_inj_nonneg in H1; lia. }
+  assert (IN : incl L used).
+  { subst L. intros v Hv. apply in_map_iff in Hv as [j [<- Hj]]. apply in_seq in Hj. apply name_taken_in, T. lia. }
+  pose proof (NoDup_incl_length ND IN) as LE. subst L. rewrite map_length, seq_length in LE. lia.
+Qed.
+Lemma bump_any_fuel used e idx k : 0 <= idx ->
+  bump_idx (Datatypes.S (length used + k)) used e idx = bump_idx (Datatypes.S (length used)) used e idx.
+Proof.
+  intros Hi. destruct (bump_total used e idx (Datatypes.S (length used)) Hi ltac:(lia)) as [i E]. rewrite E.
+  replace (Datatypes.S (length used + k)) with (Datatypes.S (length used) + k)%nat by lia. now apply bump_mono.
+Qed.
+Lemma bump_spec_st used e : forall f idx i, bump_idx f used e idx = Ok i -> idx <= i /\ name_taken used (atom_label e i) = false.
+Proof.
+  induction f as [|f IH]; intros idx i H; cbn in H; [discriminate|].
+  destruct (name_taken used (atom_label e idx)) eqn:T.
+  - apply IH in H. split; [lia|tauto].
+  - inversion H. subst. split; [lia|exact T].
+Qed.
+
+Lemma while_bump (taken : list pyval) (e : pystr) (cond : Z * pystr -> bool) (body : Z * pystr -> res (Z * pystr)) :
+  (forall i nm, body (i, nm) = Ok (i + 1, atom_label e (i + 1))) -> (forall i nm, cond (i, nm) = name_taken taken nm) ->
+  forall fuel idx, py_while fuel cond body (idx, atom_label e idx) = (i <- bump_idx fuel taken e idx ;; Ok (i, atom_label e i)).
+Proof.
+  intros B C. induction fuel as [|f IH]; intros idx; cbn [py_while bump_idx bind]; [reflexivity|].
+  rewrite C. destruct (name_taken taken (atom_label e idx)); [|reflexivity]. rewrite B. cbn [bind]. apply IH.
+Qed.
+
+Lemma name_taken_strs l nm : name_taken (map VStr l) nm = sset_mem nm l.
+Proof. unfold name_taken, sset_mem. induction l as [|x r IH]; [reflexivity|]. cbn [map existsb]. rewrite IH. reflexivity. Qed.
+Lemma name_taken_app a b nm : name_taken (a ++ b) nm = name_taken a nm || name_taken b nm.
+Proof. unfold name_taken. apply existsb_app. Qed.
+Lemma ltb_len n : Z.ltb 1 (Z.of_nat n) = Nat.ltb 1 n.
+Proof. destruct (Z.ltb_spec 1 (Z.of_nat n)), (Nat.ltb_spec 1 n); try reflexivity; lia. Qed.
+Lemma node_attrs_has g k a : node_attrs g k = Ok a -> has_node g k = true.
+Proof. unfold node_attrs, has_node. destruct (gfind k g); [reflexivity|discriminate]. Qed.
+Lemma fg_get_set_same k g s : fg_get k (fg_set k g s) = Some g.
+Proof.
+  induction s as [|[k' g'] r IH]; cbn; [now rewrite Z.eqb_refl|].
+  destruct (Z.eqb k k') eqn:E; cbn; rewrite E; [reflexivity|exact IH].
+Qed.
+Lemma fg_get_set_other k k' g s : k <> k' -> fg_get k (fg_set k' g s) = fg_get k s.
+Proof.
+  intros N. induction s as [|[k2 g2] r IH]; cbn.
+  - destruct (Z.eqb_spec k k'); [contradiction|reflexivity].
+  - destruct (Z.eqb_spec k' k2) as [->|N2]; cbn.
+    + destruct (Z.eqb_spec k k2); [contradiction|reflexivity].
+    + destruct (Z.eqb k k2); [reflexivity|exact IH].
+Qed.
+Lemma keys_set_attr g k a v : node_keys (set_node_attr g k a v) = node_keys g.
+Proof. unfold set_node_attr. now apply st_keys_gupdate. Qed.
+
+(** ---- one atom *)
+Definition names_inner (x1 : graph) (x4 : pyval) (x12 : list pyval) :=
+  (fun (st_ : Z * graph * list Z * list pystr * fgraphs) (it_ : Z) => let '(x13, x0, x9, x10, x2) := st_ in let x7 := it_ in
+  '(x13, x0, x9, x10) <- (if (negb (zset_mem x7 x9)) then (t37_ <- nx_node_attrs x0 x7 ;; t38_ <- py_len_pv (attrs_get t37_ (S "fragid") (VList [])) ;; let x14 := (Z.ltb (1) t38_) in
+  t39_ <- nx_node_attrs x0 x7 ;; t40_ <- attrs_getitem t39_ (S "element") ;; t41_ <- py_add_pv_str t40_ (str_of_Z x13) ;; let x15 := t41_ in
+  '(x13, x15) <- py_while (Datatypes.S (length x12 + length x10)) (fun st_ => let '(x13, x15) := st_ in ((pvset_mem_str x15 x12) || (x14 && (sset_mem x15 x10)))) (fun st_ => let '(x13, x15) := st_ in
+  let x13 := (x13 + (1)) in
+  t42_ <- nx_node_attrs x0 x7 ;; t43_ <- attrs_getitem t42_ (S "element") ;; t44_ <- py_add_pv_str t43_ (str_of_Z x13) ;; let x15 := t44_ in
+  Ok (x13, x15)) (x13, x15) ;;
+  x0 <- nx_set_node_item x0 x7 (S "atomname") (VStr x15) ;;
+  let x9 := set_add_int x9 x7 in
+  x10 <- (if x14 then (let x10 := set_add_str x10 x15 in
+  Ok (x10)) else (Ok (x10))) ;;
+  Ok (x13, x0, x9, x10)) else (Ok (x13, x0, x9, x10))) ;;
+  let x13 := (x13 + (1)) in
+  x2 <- (if (nx_truthy x1) then (t45_ <- nx_node_attrs x0 x7 ;; t46_ <- attrs_getitem t45_ (S "atomname") ;; let x15 := t46_ in
+  t47_ <- py_node_key x4 ;; x2 <- nx_set_store_node_item x1 x2 t47_ x7 (S "atomname") x15 ;;
+  Ok (x2)) else (Ok (x2))) ;;
+  Ok (x13, x0, x9, x10, x2)).
+
+(** the naming part alone (what the source does when the atom is not named yet) against the model *)
+Definition fresh_part (x12 : list pyval) (x13 : Z) (x0 : graph) (x9 : list Z) (x10 : list pystr) (x7 : Z) :=
+  (t37_ <- nx_node_attrs x0 x7 ;; t38_ <- py_len_pv (attrs_get t37_ (S "fragid") (VList [])) ;; let x14 := (Z.ltb (1) t38_) in
+  t39_ <- nx_node_attrs x0 x7 ;; t40_ <- attrs_getitem t39_ (S "element") ;; t41_ <- py_add_pv_str t40_ (str_of_Z x13) ;; let x15 := t41_ in
+  '(x13, x15) <- py_while (Datatypes.S (length x12 + length x10)) (fun st_ => let '(x13, x15) := st_ in ((pvset_mem_str x15 x12) || (x14 && (sset_mem x15 x10)))) (fun st_ => let '(x13, x15) := st_ in
+  let x13 := (x13 + (1)) in
+  t42_ <- nx_node_attrs x0 x7 ;; t43_ <- attrs_getitem t42_ (S "element") ;; t44_ <- py_add_pv_str t43_ (str_of_Z x13) ;; let x15 := t44_ in
+  Ok (x13, x15)) (x13, x15) ;;
+  x0 <- nx_set_node_item x0 x7 (S "atomname") (VStr x15) ;;
+  let x9 := set_add_int x9 x7 in
+  x10 <- (if x14 then (let x10 := set_add_str x10 x15 in
+  Ok (x10)) else (Ok (x10))) ;;
+  Ok (x13, x0, x9, x10)).
+Definition model_fresh (used : list pyval) (idx : Z) (mol : graph) (named : list Z) (shn : list pyval) (node : Z) :=
+  (a <- node_attrs mol node ;;
+   sh <- fragid_shared a ;;
+   el <- of_option (aget (S "element") a) EKey ;;
+   e <- as_str el ;;
+   let taken := if sh then used ++ shn else used in
+   i <- bump_idx (Datatypes.S (length taken)) taken e idx ;;
+   let nm := VStr (atom_label e i) in
+   Ok (set_node_attr mol node (S "atomname") nm, node :: named, (if sh then nm :: shn else shn), i)).
+
+Lemma shared_prim a : (t38_ <- py_len_pv (attrs_get a (S "fragid") (VList [])) ;; Ok (Z.ltb 1 t38_)) = fragid_shared a.
+Proof.
+  unfold fragid_shared, attrs_get. destruct (aget (S "fragid") a) as [v|]; [|reflexivity].
+  destruct v; cbn; try reflexivity; now rewrite ltb_len.
+Qed.
+
+Lemma fresh_spec used idx mol named shn' node : 0 <= idx -> zset_mem node named = false ->
+  match model_fresh used idx mol named (map VStr shn') node with
+  | Ok (mol1, named1, shn1, i) => exists shn1', fresh_part used idx mol named shn' node = Ok (i, mol1, named1, shn1')
+                                   /\ shn1 = map VStr shn1' /\ idx <= i
+  | Err e => fresh_part used idx mol named shn' node = Err e
+  end.
+Proof.
+  intros Hi Hn. unfold model_fresh, fresh_part, nx_node_attrs.
+  destruct (node_attrs mol node) as [a|x] eqn:NA; cbn [bind]; [|reflexivity].
+  rewrite <- shared_prim. destruct (py_len_pv _) as [len|x]; cbn [bind]; [|reflexivity].
+  set (sh := Z.ltb 1 len). unfold attrs_getitem.
+  destruct (aget (S "element") a) as [el|] eqn:EL; cbn [of_option bind]; [|reflexivity].
+  unfold py_add_pv_str. destruct (as_str el) as [e|x] eqn:AS; cbn [bind]; [|reflexivity].
+  set (taken := if sh then used ++ map VStr shn' else used).
+  change (e ++ str_of_Z idx) with (atom_label e idx).
+  rewrite (while_bump taken e).
+  2:{ intros i nm. reflexivity. }
+  2:{ intros i nm. subst taken. destruct sh; cbn [andb].
+      - now rewrite name_taken_app, name_taken_strs.
+      - now rewrite orb_false_r. }
+  assert (F : bump_idx (Datatypes.S (length used + length shn')) taken e idx = bump_idx (Datatypes.S (length taken)) taken e idx).
+  { subst taken. destruct sh.
+    - now rewrite app_length, map_length.
+    - now apply bump_any_fuel. }
+  rewrite F. destruct (bump_idx (Datatypes.S (length taken)) taken e idx) as [i|x] eqn:B; cbn [bind]; [|reflexivity].
+  apply bump_spec_st in B as [Li T]. unfold nx_set_node_item. rewrite (node_attrs_has _ _ _ NA). cbn [bind].
+  unfold set_add_int. rewrite Hn. destruct sh.
+  - exists (atom_label e i :: shn'). subst taken. rewrite name_taken_app, name_taken_strs in T. apply orb_false_iff in T as [_ T].
+    unfold set_add_str. rewrite T. cbn [bind map]. repeat split. exact Li.
+  - exists shn'. cbn [bind]. repeat split. exact Li.
+Qed.
+
+(** the state of the source's loop and the state of the model's *)
+Definition R5 (st : Z * graph * list Z * list pystr * fgraphs) : nstate * Z :=
+  let '(idx, mol, named, shn, fgs) := st in ((mol, fgs, named, map VStr shn), idx).
+
+Lemma names_inner_spec meta mn used idx mol named shn' fgs g node :
+  nx_truthy meta = true -> has_node meta mn = true -> fg_get mn fgs = Some g -> has_node g node = true -> 0 <= idx ->
+  match name_node mn used (R5 (idx, mol, named, shn', fgs)) node with
+  | Ok st1' => exists idx1 mol1 named1 shn1 fgs1 g1,
+        names_inner meta (VInt mn) used (idx, mol, named, shn', fgs) node = Ok (idx1, mol1, named1, shn1, fgs1)
+        /\ R5 (idx1, mol1, named1, shn1, fgs1) = st1' /\ 0 <= idx1
+        /\ fg_get mn fgs1 = Some g1 /\ node_keys g1 = node_keys g /\ (forall k, k <> mn -> fg_get k fgs1 = fg_get k fgs)
+  | Err e => names_inner meta (VInt mn) used (idx, mol, named, shn', fgs) node = Err e
+  end.
+Proof.
+  intros TM HM FG HG Hi. unfold name_node, R5, names_inner.
+  change (zin_l node named) with (zset_mem node named).
+  assert (TAIL : forall idx1 mol1 named1 shn1,
+    0 <= idx1 ->
+    match (a1 <- node_attrs mol1 node ;; nm <- of_option (aget (S "atomname") a1) EKey ;;
+           let fgs1 := match fg_get mn fgs with Some g => fg_set mn (set_node_attr g node (S "atomname") nm) fgs | None => fgs end in
+           Ok (mol1, fgs1, named1, map VStr shn1, idx1 + 1)) with
+    | Ok st1' => exists idx2 mol2 named2 shn2 fgs1 g1,
+        (let x13 := idx1 + 1 in
+         x2 <- (if nx_truthy meta then (t45_ <- nx_node_attrs mol1 node ;; t46_ <- attrs_getitem t45_ (S "atomname") ;; let x15 := t46_ in
+                  t47_ <- py_node_key (VInt mn) ;; x2 <- nx_set_store_node_item meta fgs t47_ node (S "atomname") x15 ;; Ok x2) else Ok fgs) ;;
+         Ok (x13, mol1, named1, shn1, x2)) = Ok (idx2, mol2, named2, shn2, fgs1)
+        /\ R5 (idx2, mol2, named2, shn2, fgs1) = st1' /\ 0 <= idx2
+        /\ fg_get mn fgs1 = Some g1 /\ node_keys g1 = node_keys g /\ (forall k, k <> mn -> fg_get k fgs1 = fg_get k fgs)
+    | Err e => (let x13 := idx1 + 1 in
+         x2 <- (if nx_truthy meta then (t45_ <- nx_node_attrs mol1 node ;; t46_ <- attrs_getitem t45_ (S "atomname") ;; let x15 := t46_ in
+                  t47_ <- py_node_key (VInt mn) ;; x2 <- nx_set_store_node_item meta fgs t47_ node (S "atomname") x15 ;; Ok x2) else Ok fgs) ;;
+         Ok (x13, mol1, named1, shn1, x2)) = Err e
+    end).
+  { intros idx1 mol1 named1 shn1 H1. rewrite TM. unfold nx_node_attrs, attrs_getitem.
+    destruct (node_attrs mol1 node) as [a1|x]; cbn [bind]; [|reflexivity].
+    destruct (aget (S "atomname") a1) as [nm|]; cbn [of_option bind]; [|reflexivity].
+    cbn [py_node_key bind]. unfold nx_set_store_node_item. rewrite HM, FG, HG. cbn [bind].
+    exists (idx1 + 1), mol1, named1, shn1, (fg_set mn (set_node_attr g node (S "atomname") nm) fgs), (set_node_attr g node (S "atomname") nm).
+    repeat split; [lia|apply fg_get_set_same|apply keys_set_attr|]. intros k Hk. now apply fg_get_set_other. }
+  destruct (zset_mem node named) eqn:Hn; cbn [negb].
+  - cbn [bind]. apply TAIL. exact Hi.
+  - pose proof (fresh_spec used idx mol named shn' node Hi Hn) as F. unfold model_fresh in F.
+    change (t37_ <- nx_node_attrs mol node ;; _) with (fresh_part used idx mol named shn' node).
+    match goal with |- match bind ?m _ with _ => _ end => destruct m as [[[[mol1 named1] shn1] i]|x] eqn:MF end.
+    + destruct F as [shn1' [F [-> Li]]]. rewrite F. cbn [bind]. apply TAIL. lia.
+    + rewrite F. reflexivity.
+Qed.
+
+(** ---- one coarse node *)
+Lemma names_inner_loop meta mn used g : nx_truthy meta = true -> has_node meta mn = true ->
+  forall ns idx mol named shn' fgs g0, fg_get mn fgs = Some g0 -> node_keys g0 = node_keys g -> incl ns (node_keys g) -> 0 <= idx ->
+  match fold_res (name_node mn used) ns (R5 (idx, mol, named, shn', fgs)) with
+  | Ok r' => exists idx1 mol1 named1 shn1 fgs1 g1,
+        fold_res (names_inner meta (VInt mn) used) ns (idx, mol, named, shn', fgs) = Ok (idx1, mol1, named1, shn1, fgs1)
+        /\ R5 (idx1, mol1, named1, shn1, fgs1) = r'
+        /\ fg_get mn fgs1 = Some g1 /\ node_keys g1 = node_keys g /\ (forall k, k <> mn -> fg_get k fgs1 = fg_get k fgs)
+  | Err e => fold_res (names_inner meta (VInt mn) used) ns (idx, mol, named, shn', fgs) = Err e
+  end.
+Proof.
+  intros TM HM. induction ns as [|n r IH]; intros idx mol named shn' fgs g0 FG KG IN Hi; cbn [fold_res].
+  - exists idx, mol, named, shn', fgs, g0. repeat split; assumption.
+  - assert (HG : has_node g0 n = true) by (apply st_gfind_has; rewrite KG; apply IN; now left).
+    pose proof (names_inner_spec meta mn used idx mol named shn' fgs g0 n TM HM FG HG Hi) as S1.
+    destruct (name_node mn used (R5 (idx, mol, named, shn', fgs)) n) as [st1'|e]; cbn [bind].
+    + destruct S1 as [idx1 [mol1 [named1 [shn1 [fgs1 [g1 [E1 [R1 [Hi1 [FG1 [KG1 O1]]]]]]]]]]]. rewrite E1. cbn [bind]. subst st1'.
+      specialize (IH idx1 mol1 named1 shn1 fgs1 g1 FG1 (eq_trans KG1 KG) (fun x Hx => IN x (or_intror Hx)) Hi1).
+      destruct (fold_res (name_node mn used) r _) as [r'|e].
+      * destruct IH as [idx2 [mol2 [named2 [shn2 [fgs2 [g2 [E2 [R2 [FG2 [KG2 O2]]]]]]]]]].
+        exists idx2, mol2, named2, shn2, fgs2, g2. repeat split; try assumption. intros k Hk. now rewrite O2, O1.
+      * exact IH.
+    + rewrite S1. reflexivity.
+Qed.
+
+Definition names_group (x1 : graph) :=
+  (fun (st_ : graph * list Z * list pystr * fgraphs) (it_ : pyval * list Z) => let '(x0, x9, x10, x2) := st_ in let '(x4, x11) := it_ in
+  t36_ <- map_res (fun it_ => let x7 := it_ in t34_ <- nx_node_attrs x0 x7 ;; t35_ <- attrs_getitem t34_ (S "atomname") ;; Ok t35_) (filter (fun it_ => let x7 := it_ in (zset_mem x7 x9)) x11) ;; let x12 := t36_ in
+  let x13 := (0) in
+  '(x13, x0, x9, x10, x2) <- fold_res (names_inner x1 x4 x12) x11 (x13, x0, x9, x10, x2) ;;
+  Ok (x0, x9, x10, x2)).
+Definition R4 (st : graph * list Z * list pystr * fgraphs) : nstate :=
+  let '(mol, named, shn, fgs) := st in (mol, fgs, named, map VStr shn).
+
+Lemma map_res_ext {A B} (f g : A -> res B) l : (forall x, f x = g x) -> GraphOps.map_res f l = GraphOps.map_res g l.
+Proof. intros H. induction l as [|x r IH]; cbn; [reflexivity|]. now rewrite H, IH. Qed.
+Lemma used_prim mol named ns :
+  GraphOps.map_res (fun it_ => let x7 := it_ in t34_ <- nx_node_attrs mol x7 ;; t35_ <- attrs_getitem t34_ (S "atomname") ;; Ok t35_)
+                   (filter (fun it_ => let x7 := it_ in zset_mem x7 named) ns) = used_names mol named ns.
+Proof.
+  unfold used_names. apply map_res_ext. intros n. unfold nx_node_attrs, attrs_getitem.
+  destruct (node_attrs mol n) as [a|]; cbn [bind]; [|reflexivity]. now destruct (aget (S "atomname") a).
+Qed.
+
+Lemma names_group_spec meta mn ns g mol named shn' fgs : nx_truthy meta = true -> has_node meta mn = true ->
+  fg_get mn fgs = Some g -> incl ns (node_keys g) ->
+  match name_group2 (R4 (mol, named, shn', fgs)) (mn, ns) with
+  | Ok r' => exists mol1 named1 shn1 fgs1 g1,
+        names_group meta (mol, named, shn', fgs) (VInt mn, ns) = Ok (mol1, named1, shn1, fgs1)
+        /\ R4 (mol1, named1, shn1, fgs1) = r'
+        /\ fg_get mn fgs1 = Some g1 /\ node_keys g1 = node_keys g /\ (forall k, k <> mn -> fg_get k fgs1 = fg_get k fgs)
+  | Err e => names_group meta (mol, named, shn', fgs) (VInt mn, ns) = Err e
+  end.
+Proof.
+  intros TM HM FG IN. unfold name_group2, R4, names_group. cbn [fst snd]. rewrite used_prim.
+  destruct (used_names mol named ns) as [used|e]; cbn [bind]; [|reflexivity].
+  pose proof (names_inner_loop meta mn used g TM HM ns 0 mol named shn' fgs g FG eq_refl IN ltac:(lia)) as L. unfold R5 in L at 1.
+  destruct (fold_res (name_node mn used) ns _) as [r'|e]; cbn [bind].
+  - destruct L as [idx1 [mol1 [named1 [shn1 [fgs1 [g1 [E1 [R1 [FG1 [KG1 O1]]]]]]]]]]. rewrite E1. cbn [bind].
+    exists mol1, named1, shn1, fgs1, g1. subst r'. repeat split; assumption.
+  - rewrite L. reflexivity.
+Qed.
+
+(** ---- all coarse nodes *)
+Definition inj_groups (gs : list (Z * list Z)) : ddl Z := map (fun kl => (VInt (fst kl), snd kl)) gs.
+Definition groups_ok (meta : graph) (fgs : fgraphs) (gs : list (Z * list Z)) : Prop :=
+  forall mn ns, In (mn, ns) gs -> has_node meta mn = true /\ exists g, fg_get mn fgs = Some g /\ incl ns (node_keys g).
+
+Lemma names_outer meta : nx_truthy meta = true -> forall gs mol named shn' fgs, groups_ok meta fgs gs ->
+  match fold_res name_group2 gs (R4 (mol, named, shn', fgs)) with
+  | Ok r' => exists st1, fold_res (names_group meta) (inj_groups gs) (mol, named, shn', fgs) = Ok st1 /\ R4 st1 = r'
+  | Err e => fold_res (names_group meta) (inj_groups gs) (mol, named, shn', fgs) = Err e
+  end.
+Proof.
+  intros TM. induction gs as [|[mn ns] r IH]; intros mol named shn' fgs OK; cbn [fold_res inj_groups map fst snd].
+  - exists (mol, named, shn', fgs). split; reflexivity.
+  - destruct (OK mn ns (or_introl eq_refl)) as [HM [g [FG IN]]].
+    pose proof (names_group_spec meta mn ns g mol named shn' fgs TM HM FG IN) as S1.
+    destruct (name_group2 (R4 (mol, named, shn', fgs)) (mn, ns)) as [r1|e]; cbn [bind].
+    + destruct S1 as [mol1 [named1 [shn1 [fgs1 [g1 [E1 [R1 [FG1 [KG1 O1]]]]]]]]]. rewrite E1. cbn [bind]. subst r1.
+      fold (inj_groups r). apply IH. intros mn' ns' H'. destruct (OK mn' ns' (or_intror H')) as [HM' [g' [FG' IN']]]. split; [exact HM'|].
+      destruct (Z.eq_dec mn' mn) as [->|N].
+      * exists g1. split; [exact FG1|]. rewrite KG1. rewrite FG in FG'. inversion FG'. subst g'. exact IN'.
+      * exists g'. split; [now rewrite O1|exact IN'].
+    + rewrite S1. reflexivity.
+Qed.
+
+(** ---- the groups: fraglist built from the coarse nodes' fragment graphs *)
+Definition names_collect (x1 : graph) (x2 : fgraphs) :=
+  (fun (st_ : ddl Z) (it_ : Z) => let x3 := st_ in let x4 := it_ in
+  t3_ <- nx_get_node_graph x1 x2 x4 ;; let x5 := t3_ in
+  x3 <- (if (opt_graph_truthy x5) then (t4_ <- opt_graph_nodes x5 ;; x3 <- ddl_extend x3 (VInt x4) t4_ ;;
+  Ok (x3)) else (Ok (x3))) ;;
+  Ok (x3)).
+Lemma ddl_upd_fresh {A} (d : list (Z * list A)) k (xs : list A) : ~ In k (map fst d) ->
+  ddl_upd (map (fun kl => (VInt (fst kl), snd kl)) d) (VInt k) xs = map (fun kl => (VInt (fst kl), snd kl)) (d ++ [(k, xs)]).
+Proof.
+  induction d as [|[k' l] r IH]; cbn [map ddl_upd fst snd app]; intros H; [reflexivity|].
+  cbn [pyval_eqb]. destruct (Z.eqb_spec k k') as [->|N]; [exfalso; apply H; now left|].
+  rewrite IH; [reflexivity|]. intros X. apply H. now right.
+Qed.
+Lemma fraglist_keys l fgs : incl (map fst (fraglist_of l fgs)) (node_keys l).
+Proof.
+  unfold fraglist_of. induction l as [|m r IH]; cbn; [intros x []|]. rewrite map_app. intros x Hx. apply in_app_or in Hx as [Hx|Hx].
+  - destruct (fg_get (nk m) fgs) as [g|]; [|contradiction]. destruct g; [contradiction|]. destruct Hx as [<-|[]]. now left.
+  - right. now apply IH.
+Qed.
+Lemma names_collect_loop meta fgs : forall l acc, (forall m, In m l -> has_node meta (nk m) = true) ->
+  NoDup (map fst acc ++ node_keys l) ->
+  fold_res (names_collect meta fgs) (node_keys l) (inj_groups acc) = Ok (inj_groups (acc ++ fraglist_of l fgs)).
+Proof.
+  induction l as [|m r IH]; intros acc HM ND; cbn [node_keys map fold_res].
+  - unfold fraglist_of. cbn. now rewrite app_nil_r.
+  - unfold names_collect at 1, nx_get_node_graph. rewrite (HM m (or_introl eq_refl)). cbn [bind].
+    fold (node_keys r). unfold fraglist_of. cbn [flat_map]. fold (fraglist_of r fgs).
+    assert (NI : ~ In (nk m) (map fst acc)).
+    { cbn [node_keys map] in ND. apply NoDup_remove_2 in ND. intros X. apply ND. apply in_or_app. now left. }
+    assert (ND0 : NoDup (map fst acc ++ node_keys r)).
+    { cbn [node_keys map] in ND. now apply NoDup_remove_1 in ND. }
+    assert (ND1 : forall xs, NoDup (map fst (acc ++ [(nk m, xs)]) ++ node_keys r)).
+    { intros xs. rewrite map_app, <- app_assoc. exact ND. }
+    destruct (fg_get (nk m) fgs) as [g|]; cbn [opt_graph_truthy].
+    + destruct g as [|n0 g']; cbn [nx_truthy].
+      * cbn [bind app]. apply IH; [intros; apply HM; now right|exact ND0].
+      * cbn [opt_graph_nodes bind]. unfold ddl_extend. cbn [py_hashable bind].
+        unfold inj_groups at 1. rewrite ddl_upd_fresh by exact NI. fold (inj_groups (acc ++ [(nk m, node_keys (n0 :: g'))])).
+        rewrite IH; [now rewrite <- app_assoc|intros; apply HM; now right|apply ND1].
+    + cbn [bind app]. apply IH; [intros; apply HM; now right|exact ND0].
+Qed.
+
+Lemma fraglist_ok meta fgs : groups_ok meta fgs (fraglist_of meta fgs).
+Proof.
+  intros mn ns H. unfold fraglist_of in H. apply in_flat_map in H as [m [Hm H]].
+  destruct (fg_get (nk m) fgs) as [g|] eqn:FG; [|contradiction]. destruct g as [|n0 g'] eqn:EG; [contradiction|].
+  destruct H as [H|[]]. inversion H. subst mn ns. split; [now apply has_node_in|]. exists (n0 :: g'). split; [exact FG|]. intros x Hx. exact Hx.
+Qed.
+
+Lemma if_true {A} (b : bool) (x y : A) : b = true -> (if b then x else y) = x.
+Proof. now intros ->. Qed.
+(** with a (non-empty) coarse graph whose keys are distinct: the source names the atoms as the model does *)
+Theorem names_is_source : forall mol meta fgs, meta <> [] -> NoDup (node_keys meta) ->
+  gen_set_atom_names_atomistic mol meta fgs = GraphOps.set_atom_names mol meta fgs.
+Proof.
+  intros mol meta fgs NE ND. unfold gen_set_atom_names_atomistic, GraphOps.set_atom_names.
+  assert (TM : nx_truthy meta = true) by (destruct meta; [contradiction|reflexivity]).
+  cbv zeta. rewrite (if_true _ _ _ TM).
+  match goal with |- bind (bind (fold_res ?f _ _) _) _ = _ => change f with (names_collect meta fgs) end.
+  unfold nx_nodes. pose proof (names_collect_loop meta fgs meta [] (has_node_in meta) ND) as C. cbn [inj_groups map app] in C.
+  rewrite C. cbn [bind]. unfold dict_items.
+  match goal with |- bind (fold_res ?f _ _) _ = _ => change f with (names_group meta) end.
+  pose proof (names_outer meta TM (fraglist_of meta fgs) mol [] [] fgs (fraglist_ok meta fgs)) as O. unfold R4 in O at 1. cbn [map] in O.
+  fold (inj_groups (fraglist_of meta fgs)).
+  destruct (fold_res name_group2 (fraglist_of meta fgs) (mol, fgs, [], [])) as [r'|e]; cbn [bind].
+  - destruct O as [[[[mol1 named1] shn1] fgs1] [E R]]. rewrite E. cbn [bind]. subst r'. reflexivity.
+  - rewrite O. reflexivity.
+Qed.
